@@ -966,3 +966,84 @@ mod tests {
         );
     }
 }
+
+/// Verification hooks (only with `--cfg scylla_verif`): a `ClusterState` built from an
+/// in-memory description of peers (host id, address, datacenter, rack, tokens) and keyspaces,
+/// through the same steps as `ClusterState::new` (`calculate_new_topology`'s ring layout,
+/// `perform_tablets_maintenance`, `calculate_new_locator`), except that the `Node` objects
+/// have no connection pool (`verif_node::node_without_pool`), so nothing connects.
+#[cfg(scylla_verif)]
+#[allow(missing_docs)]
+pub mod verif_hooks {
+    use super::{ClusterState, KnownNodes, Ring};
+    use crate::cluster::metadata::{Keyspace, Strategy};
+    use crate::cluster::node::NodeAddr;
+    use crate::cluster::node::verif_hooks::node_without_pool;
+    use crate::routing::Token;
+    use crate::routing::locator::tablets::TabletsInfo;
+    use std::collections::HashMap;
+    use std::sync::Arc;
+    use uuid::Uuid;
+
+    pub struct VerifPeer {
+        pub host_id: Uuid,
+        pub address: NodeAddr,
+        pub datacenter: Option<String>,
+        pub rack: Option<String>,
+        pub tokens: Vec<Token>,
+    }
+
+    /// A `Keyspace` (the struct is `#[non_exhaustive]`) without tables, views and types.
+    pub fn keyspace(strategy: Strategy, tablet_based: bool) -> Keyspace {
+        Keyspace {
+            strategy,
+            durable_writes: true,
+            tablet_based,
+            tables: HashMap::new(),
+            views: HashMap::new(),
+            user_defined_types: HashMap::new(),
+        }
+    }
+
+    /// The ring is laid out as in `calculate_new_topology`: peers in the given order, each
+    /// peer's tokens in the given order. Strategies of keyspaces that are not tablet based are
+    /// precomputed, as in `ClusterState::new`.
+    pub async fn cluster_state(
+        peers: Vec<VerifPeer>,
+        keyspaces: HashMap<String, Keyspace>,
+    ) -> ClusterState {
+        let mut new_known_nodes: KnownNodes = HashMap::with_capacity(peers.len());
+        let mut ring: Ring = Vec::new();
+        for peer in peers {
+            let node = Arc::new(node_without_pool(
+                peer.host_id,
+                peer.address,
+                peer.datacenter,
+                peer.rack,
+            ));
+            new_known_nodes.insert(peer.host_id, Arc::clone(&node));
+            for token in peer.tokens {
+                ring.push((token, Arc::clone(&node)));
+            }
+        }
+
+        let mut tablets = TabletsInfo::new();
+        ClusterState::perform_tablets_maintenance(
+            &mut tablets,
+            &HashMap::new(),
+            &new_known_nodes,
+            &keyspaces,
+        );
+
+        let (locator, keyspaces) =
+            ClusterState::calculate_new_locator(keyspaces, ring, tablets).await;
+
+        ClusterState {
+            all_nodes: new_known_nodes.values().cloned().collect(),
+            known_nodes: new_known_nodes,
+            keyspaces,
+            locator,
+            cluster_name: None,
+        }
+    }
+}
